@@ -22,6 +22,7 @@ pub struct PipeState {
     pub gated: bool,     // true: written bytes stay in `held` until `release`
     pub cap: usize,      // max buffered (buf + held) before writes return Pending
     pub read_max: usize, // upper bound of one read
+    pub write_max: usize, // upper bound of what one write call accepts (back-pressure: partial writes)
     pub read_script: VecDeque<usize>,
     pub wlog: Vec<WEv>,
     pub record: Vec<u8>, // every byte accepted from the writer (when `recording`)
@@ -57,6 +58,7 @@ pub fn pipe(name: &'static str) -> (PipeWriter, PipeReader, PipeCtl) {
         gated: false,
         cap: usize::MAX,
         read_max: usize::MAX,
+        write_max: usize::MAX,
         read_script: VecDeque::new(),
         wlog: Vec::new(),
         record: Vec::new(),
@@ -127,7 +129,7 @@ impl AsyncWrite for PipeWriter {
             return Poll::Ready(Err(io::Error::new(io::ErrorKind::BrokenPipe, "pipe closed")));
         }
         if data.is_empty() { return Poll::Ready(Ok(0)); }
-        let mut n = data.len();
+        let mut n = data.len().min(g.write_max.max(1));
         if let Some((at, kind)) = g.w_fault_at {
             if g.written >= at {
                 g.werr_hits += 1;
